@@ -68,22 +68,25 @@ def label_model():
 
     class Clf:
         def predict_one(self, x):
-            return "pos" if x["a"] > 0 else ("neg" if x["c"] < 2 else "mid")
+            return ("pos" if x["a"] > 0 else ("neg" if x["c"] < 2 else "mid")) + LABEL_TAG
     return RiverWrapper(Clf().predict_one)
 
 
 class river_like_clf:
     """stands in for a river classifier (validate_model_function dispatches on 'river' in the type's name); stateless"""
     def predict_one(self, x):
-        return "pos" if x["a"] > 0 else ("neg" if x["c"] < 2 else "mid")
+        return ("pos" if x["a"] > 0 else ("neg" if x["c"] < 2 else "mid")) + LABEL_TAG
 
 
+# the label strings are different for every configuration (same within the runs that are compared with each other), so that whatever
+# the library may remember about labels met in EARLIER scenarios cannot mask a difference between the runs of this one
+LABEL_TAG = ""
 SHARED_MODEL = river_like_clf()
 
 
 def brier(y, p):
     """label-averaged squared error: sensitive to additional zero-probability labels"""
-    want = "pos" if y > 0 else "neg"
+    want = ("pos" if y > 0 else "neg") + LABEL_TAG
     return sum((v - (1.0 if k == want else 0.0)) ** 2 for k, v in p.items()) / max(1, len(p))
 
 
@@ -211,8 +214,10 @@ def static_scan():
 
 def child_main():
     """run in a child process under another PYTHONHASHSEED: every configuration twice; exit 1 on any difference"""
+    global LABEL_TAG
     bad = []
-    for cfg in CONFIGS:
+    for ci, cfg in enumerate(CONFIGS):
+        LABEL_TAG = f"#c{ci}"
         a = run_once(cfg, 11, 12)[0]
         b = run_once(cfg, 11, 12, decoys=True)[0]
         if a != b:
@@ -236,7 +241,9 @@ def run(tier="quick", seed=0, replay=None):
         return 1
     core.lean_stage(chk, "C18")
     sa, sb = 1000 + seed, 2000 + 3 * seed
-    for cfg in CONFIGS:
+    global LABEL_TAG
+    for ci, cfg in enumerate(CONFIGS):
+        LABEL_TAG = f"#{ci}"
         try:
             a = run_once(cfg, sa, sb)
             b = run_once(cfg, sa, sb, fresh_model=(cfg[2] != "river-shared"))     # river-shared: the SAME model object is explained again
